@@ -54,6 +54,9 @@ def gen_recs(r, fmt):
                 v = r.choice(PLAIN)
                 if fmt in ("xtab", "markdown", "usv", "asv", "csvlite") and r.chance(0.2):
                     v = r.choice(["a b", "x y z"])
+                if fmt in ("pprint", "nidx", "xtab", "dkvp", "csvlite") and r.chance(0.12):
+                    # white space other than U+0020 is data in the space-separated formats
+                    v = r.choice(["a\u00a0b", "x\u3000y", "t\tt", "em\u2003sp", "\u00a0lead", "trail\u3000", "v\u000bt", "f\u000cf", "nel\u0085x", "ls\u2028x"])
             rec.append((k, v))
         recs.append(rec)
     if fmt in ("dkvp", "nidx") and r.chance(0.5):
@@ -92,6 +95,10 @@ def build_case(r, tier):
     fmt = r.choice(["csv", "csv", "csv", "csvlite", "tsv", "tsv", "json", "json", "jsonl", "dkvp", "nidx", "xtab", "pprint", "markdown", "usv", "asv"])
     recs = gen_recs(r, fmt)
     wopts, ropts = r.choice(VARIANTS[fmt])
+    if fmt == "pprint" and "--barred" in wopts:
+        # R8: the barred reader trims padded cells with strings.TrimSpace, so values beginning or ending in (any Unicode)
+        # white space are outside the domain of that variant
+        recs = [[(k, v.strip() or "v") for k, v in rec] for rec in recs]
     if fmt == "csv" and "crlf" in wopts:
         # Go-csv semantics kept by Miller: with CRLF line ends an embedded LF is written as CRLF too (R8: outside the domain)
         recs = [[(k, v.replace("\n", " ")) for k, v in rec] for rec in recs]
